@@ -674,7 +674,7 @@ class TypedTree(Tree):
     @staticmethod
     def deserialize_mapper(parent: Node, data: dict) -> str | object | None:
         """Used as default `mapper` argument for :meth:`load`."""
-        if "str" in data and len(data) <= 2:
+        if "str" in data and set(data) <= {"str", "data_id", "kind"}:
             # This can happen if the source was generated without a
             # serialization mapper, for a TypedTree that has pure str nodes
             return data["str"]
